@@ -163,7 +163,7 @@ pub fn run(thorough: bool) -> Report {
     };
     let n1 = if thorough { 4 } else { 3 };
     run_menu(&menu, n1, &mut by_sig, &mut files);
-    let n2 = if thorough { 5 } else { 4 };
+    let n2 = if thorough { 6 } else { 4 };
     run_menu(&dups, n2, &mut by_sig, &mut files);
 
     // long files: one menu line repeated 120 times followed by another menu line (counts of
